@@ -27,9 +27,6 @@ ASSUMPTIONS = [
     'C42_lock_mutex (model-level, no lockstep tie), and the real class is additionally stress-tested with 1..4 threads against an atomic ownership map',
 ]
 
-EXE = None
-
-
 def harness():
     return dv.build_harness('h_poolalloc', ['h_poolalloc.cpp'])
 
@@ -174,8 +171,9 @@ def coq_op(o):
 
 def coq_case(c, p):
     ops = dv.coq_list([coq_op(o) for o in c['ops']])
-    obs = dv.coq_list(['(%s,%s,%s,%s)' % tuple(dv.zlit(x) for x in ob) for ob in p['obs']])
-    return '(%d, %d, %s, %s, %s, %s)' % (c['cs'], c['asz'], ops, obs, dv.coq_list([dv.zlit(x) for x in p['dtor']]), 'true' if p['intact'] else 'false')
+    obs = dv.coq_list([('ObN %s %s' % (dv.zlit(ob[2]), dv.zlit(ob[3]))) if o != 'a' else ('ObA %s %s %s %s' % tuple(dv.zlit(x) for x in ob))
+                       for o, ob in zip(c['ops'], p['obs'])])
+    return '(PC %d %d %s %s %s %s)' % (c['cs'], c['asz'], ops, obs, dv.coq_list([dv.zlit(x) for x in p['dtor']]), 'true' if p['intact'] else 'false')
 
 
 def replay_cmd(line):
@@ -194,7 +192,7 @@ def correspond(ctx, exe):
         t = line.split()
         cases = [mk_case(int(t[0]), int(t[1]), int(t[2]), t[3:])]
     else:
-        n = 1500 if ctx.quick else 16000
+        n = 1000 if ctx.quick else 12000
         maxops = 70 if ctx.quick else 120
         cases = fixed_cases()
         while len(cases) < n:
@@ -234,8 +232,7 @@ def correspond(ctx, exe):
             c, l, p = kept[i]
             hist[v] = hist.get(v, 0) + 1
             if v == 2:
-                ctx.violation('PoolAllocator%s violates C42 on the history "%s" (chunk outside its slab / overlapping or doubly handed-out chunk / allocFunc called '
-                              'while chunks were reusable / destructor did not free each slab exactly once / chunk bytes clobbered): observed %s dtor %s intact %s'
+                ctx.violation('PoolAllocator%s violates C42 on the history "%s": %s (destructor freed slabs %s, chunk byte patterns intact: %s)'
                               % ('' if c['variant'] else ' (NoLock)', l, diagnose(c, p), p['dtor'], p['intact']),
                               {'case': c, 'line': l, 'impl': p, 'cmd': replay_cmd(l)})
             elif v == 1:
@@ -274,13 +271,13 @@ def diagnose(c, p):
         if o != 'a' and nc != prev:
             return 'op %d: allocFunc called by %s' % (k, o)
         prev = nc
-    return 'destructor / byte pattern'
+    return 'destructor did not pass each slab to deallocFunc exactly once, or a chunk\'s bytes were clobbered while it was outstanding'
 
 
 def py_fallback(ctx, kept):
     for c, l, p in kept:
         d = diagnose(c, p)
-        if d != 'destructor / byte pattern' or sorted(p['dtor']) != list(range(p['obs'][-1][2] if p['obs'] else 0)) or not p['intact']:
+        if not d.startswith('destructor') or sorted(p['dtor']) != list(range(p['obs'][-1][2] if p['obs'] else 0)) or not p['intact']:
             ctx.violation('PoolAllocator violates C42 on "%s": %s' % (l, d), {'case': c, 'line': l, 'impl': p, 'cmd': replay_cmd(l)})
             break
 
@@ -289,13 +286,13 @@ def stress(ctx, exe, lines=None):
     r = ctx.rng
     if lines is None:
         lines = []
-        for T in (1, 2, 3, 4, 4, 2):
+        for T in (1, 2, 3, 4, 4, 2, 3, 4):
             cpa = r.choice([1, 2, 3, 8])
             cs = r.choice([1, 8, 24, 64])
             asz = cpa * cs + r.choice([0, cs - 1])
-            iters = 60000 if ctx.quick else 600000
+            iters = 250000 if ctx.quick else 2500000
             lines.append('mt %d %d %d %d %d %d' % (T, cs, asz, iters, r.choice([1, 2, 5, 16]), r.randint(1, 1 << 30)))
-    outs = pf_common.run_harness(exe, lines, timeout=300)
+    outs = pf_common.run_harness(exe, lines, timeout=60 if ctx.quick else 300)
     ok = 0
     for l, o in zip(lines, outs):
         t = (o or '').split()
